@@ -56,6 +56,26 @@ CHECKS = {
               "values are outside the property's quantifier and not generated."),
         technique="proptest-generated record sequences and sampler runs; round-trip / differential against a recording reference (tee storage) with a fresh reader",
     ),
+    "C15": dict(
+        category="exploration",
+        text=("Crash-point search with a fresh reader. direct-flush: the Zarr chain storages (sync and async writer; in-memory store with "
+              "generated write latencies and filesystem store) are driven with the generated record sequences of C14 (all presets' schemas, rich "
+              "draw schema, num_tune / num_draws from {0,1,2..13}, 1..4 chains, chunk sizes 1, smaller than, equal to, larger than and not dividing "
+              "the draw counts, store_warmup on/off); at 1..7 generated positions one chain or all chains are flushed, or the process stops "
+              "without a flush; at every such point the store is copied (all keys / the whole directory, between two store operations) and "
+              "re-opened with zarrs. A complete enumeration covers writer x num_tune 0..4 x num_draws 0..4 x chunk 1..5 with a flush after every "
+              "recorded draw. sampler-flush: the real Sampler with gated chains (the script decides how many draws each chain has recorded), "
+              "a recording tee, and scripts interleaving chain progress, Sampler::flush and crash points. Oracle: after flush() returned the "
+              "copy holds every row the flushed chains had recorded - every statistic, event field and draw variable of both phases, bit for "
+              "bit at its position; every later copy (after more records, other flushes, crash points) still holds them; after finalisation the "
+              "complete trace is read back (C14 oracle)."),
+        design_ref="DESIGN.md section 3, C15",
+        note=("A crash is a copy of the store taken between two store operations; a torn write inside one operation (power loss in the middle of "
+              "a file write) is outside the model - the harness excludes it with a reader/writer gate around the store. Rows recorded after the "
+              "last flush are not judged. Write-queue timing of the async writer is explored through generated latencies and 1..3 runtime "
+              "workers, not enumerated."),
+        technique="proptest-generated record / flush / crash-point sequences with store snapshots re-read by a fresh reader; exhaustive flush-after-every-draw enumeration for small sizes; gated real-sampler scripts",
+    ),
     "C10": dict(
         category="exploration",
         text=("For generated settings (six presets), models, seeds and 1..8 chains the parallel Sampler is run several times with num_cores from "
